@@ -110,7 +110,7 @@ ALL_CHECKS = {
 for _k, _v in ALL_CHECKS.items():
     _v["design"] = "DESIGN.md section 3, " + _k
 
-IMPLEMENTED_IDS = ["C01", "C02", "C03", "C04", "C05", "C06", "C07", "C13", "C14", "C15", "C16", "C17", "C18", "C19"]
+IMPLEMENTED_IDS = sorted(ALL_CHECKS)
 IMPLEMENTED = {k: ALL_CHECKS[k] for k in IMPLEMENTED_IDS}
 
 NOT_YET = "check not built yet in this round; planned per DESIGN.md section 3"
